@@ -227,7 +227,7 @@ def build(ctx):
                 text = harness(u, inst, cap, mode == "checked")
                 for k, opname in enumerate(OPS):
                     # one query per operation: a change that makes one operation expensive to decide cannot starve the verdicts on the others
-                    hs.append(P.Harness("%s_op%02d_%s_%s_cxx%s" % (inst[0], k, opname, mode, std), text, [u], unwind=cap + 3, cap=ctx.q(300, 900), defines=["VERIF_WHICH=%d" % k],
+                    hs.append(P.Harness("%s_op%02d_%s_%s_cxx%s" % (inst[0], k, opname, mode, std), text, [u], unwind=cap + 3, cap=ctx.q(600, 1200), defines=["VERIF_WHICH=%d" % k],
                                         desc="dynamic_array_ref<char,%s,%s,%s>: %s, one step from any state, vs. vector model (length prefix, payload, returned iterator, frame, no handler)" % (inst[1], inst[2], "BE" if inst[5] else "LE", opname),
                                         bounds={"CAP": cap, "source_len": "0..3", "std": "c++" + std, "build": mode, "operation": opname}))
                 hs.append(P.Harness("%s_widelen_%s_cxx%s" % (inst[0], mode, std), wide_len_harness(u, inst), [u], unwind=10, cap=ctx.q(120, 600), extra_flags=["--no-standard-checks"],
